@@ -240,6 +240,8 @@ struct Case {
     over_budget: bool,
     /// polls at the moment the latest completed remote wake was issued (None: no wake to account for)
     pending_wake: Option<u32>,
+    /// a JoinHandle drop / cancel issued on another thread has returned while the task's future was still alive
+    remote_cancel_done: bool,
     /// the running tick started after a completed wake with no scheduler in flight: it must poll the task
     tick_covers: Option<u32>,
     wake_issued_at: Vec<Option<u32>>,
@@ -306,6 +308,7 @@ impl Case {
             t0: std::time::Instant::now(),
             over_budget: false,
             pending_wake: None,
+            remote_cancel_done: false,
             tick_covers: None,
             wake_issued_at: vec![None; 4],
         }
@@ -352,6 +355,12 @@ impl Case {
                                          the tick): the runnable task is starved")));
                         }
                         self.pending_wake = None;
+                    }
+                }
+                if (self.roles[r].cur_cmd == "hdrop" || self.roles[r].cur_cmd == "cancel") && r != 0 {
+                    let t = self.world.t(1);
+                    if lock(&t.produced).is_none() && t.fdrops.load(SeqCst) == 0 {
+                        self.remote_cancel_done = true;
                     }
                 }
                 if self.roles[r].cur_cmd == "wake" {
@@ -995,6 +1004,32 @@ fn finish_case(mut c: Case, case: &Value, idx: u64, rep: &mut Report, diffs: Vec
                                  but the task was not polled again (polls {p0} when the wake was issued, {p0} now): the runnable task is starved")));
                 }
             }
+        }
+    }
+    // ---- "dropping the handle cancels the task", also from another thread: the drop / cancel call has returned, the
+    // executor is alive and the home thread idle; the environment is fair, the home thread ticks once more (twice: the
+    // first tick may only move the id from the cross-thread queue to the run queue); the future must then be gone
+    if drained && c.remote_cancel_done && !c.exec_dropped && !c.roles[0].lost && ctl::whereis(0) == Where::Idle
+        && !c.roles.iter().any(|r| r.lost) {
+        let alive = |c: &Case| lock(&c.world.t(1).produced).is_none() && c.world.t(1).fdrops.load(SeqCst) == 0;
+        let mut ok = true;
+        for _ in 0..2 {
+            if !ok || !alive(&c) {
+                break;
+            }
+            {
+                let mut sc = lock(&c.world.script);
+                sc.clear();
+                sc.push_back((1, Outcome::Pend));
+            }
+            c.command(0, "tick", Cmd::Tick);
+            ok = c.drain();
+        }
+        if ok && alive(&c) {
+            c.violations.push(("contract", json!({"site": "remote", "what": "remote-cancel-lost"}),
+                "a JoinHandle was dropped / cancelled on another thread and the call returned while the task was parked; the home \
+                 thread then ran two whole ticks and the task's future is still alive (not dropped, no result): dropping the handle \
+                 did not cancel the task".to_string()));
         }
     }
     if c.over_budget {
